@@ -344,5 +344,11 @@ CovSane == phase = "cv" =>
 Export == /\ (DoExport /\ phase \in {"wm", "wm2", "cl", "ip", "cv"}) => PrintT(<<"CASE", ToJson(c)>>)
           /\ (DoExport /\ phase = "start") =>
                 PrintT(<<"OPTS", ToJson([mus |-> MuTable, nsigs |-> NSigTable, reps |-> RepSeq, lats |-> LatSeq,
-                                         intreps |-> IntReps, tolbig |-> TolBig, tolf4 |-> TolF4])>>)
+                                         tolbig |-> TolBig, tolf4 |-> TolF4,
+                                         \* which (representation, lattice) pairs are admissible, and the tolerance of each
+                                         \* (lattice, float32 data?) - used by the adapter for its seeded larger cases
+                                         okdata  |-> UNION {{<<r, l.name>> : r \in {q \in VRange(RepSeq) : RepOKData(q, l)}} : l \in VRange(LatSeq)},
+                                         okwts   |-> UNION {{<<r, l.name>> : r \in {q \in VRange(RepSeq) : RepOKWts(q, l)}} : l \in VRange(LatSeq)},
+                                         okquery |-> UNION {{<<r, l.name>> : r \in {q \in VRange(RepSeq) : RepOKQuery(q, l)}} : l \in VRange(LatSeq)},
+                                         tols    |-> {<<l.name, r, LatTol(l, r)>> : r \in {"f4", "f8"}, l \in VRange(LatSeq)}])>>)
 =============================================================================
